@@ -1,4 +1,5 @@
 import J5V.Schema.ExportProofs
+import J5V.Generated.SchemaFacts
 /-!
 # C15 — schema sets survive export to the source-API form and re-import
 
@@ -145,5 +146,146 @@ example : (rootFromDesc "other.v1" (toJ5Root sampleObject)).isOk = true := by de
 /-- the hypothesis excludes something: an integer scalar with format UNSPECIFIED is rejected -/
 example : fieldFromDesc "p" (toJ5Field (.scalar .integer 0 0 "" "fa0100")) =
     .err "unsupported integer format" := by decide
+
+/-! ## Obligations over facts regenerated from the current source (`extract -what schema`)
+
+**E10 — field copy.** `exportLits` lists every `schema_j5pb` composite literal the exporters
+build (with the text of each value), `importLits` every `j5schema` struct literal the importers
+build. `pairing` is the hand-written statement of the round trip: descriptor field ↔ struct
+field, with the value text(s) an importer literal must carry for that field. The obligations:
+every descriptor field an exporter writes is paired (an exported field without a reader is
+exactly a "lost" finding), and **every** importer literal of the struct sets the paired field from
+the paired descriptor field (so dropping it in one arm, as the original code did for inline
+enums, breaks the obligation). -/
+section Src
+open J5V.Generated.Schema
+
+/-- D messages that only wrap (oneof members, the root / field envelopes) -/
+def wrappers : List String :=
+  ["RootSchema", "RootSchema_Enum", "RootSchema_Object", "RootSchema_Oneof", "Field", "Field_Any",
+   "Field_Enum", "Field_Object", "Field_Oneof", "Field_Map", "Field_Array", "Field_String_",
+   "EnumField_Ref", "ObjectField_Ref", "OneofField_Ref"]
+
+/-- ((D message, D field), (S struct, S field), accepted value texts in an importer literal;
+`[]` = the field is filled in after the literal, see `laterReads`) -/
+def pairing : List ((String × String) × (String × String) × List String) := [
+  (("Enum_Option", "Name"), ("EnumOption", "name"), ["src.Name"]),
+  (("Enum_Option", "Number"), ("EnumOption", "number"), ["src.Number"]),
+  (("Enum_Option", "Description"), ("EnumOption", "description"), ["src.Description"]),
+  (("Enum_Option", "Info"), ("EnumOption", "Info"), ["src.Info"]),
+  (("Enum", "Name"), ("rootSchema", "name"), ["sch.Name"]),
+  (("Enum", "Description"), ("rootSchema", "description"), ["sch.Description"]),
+  (("Enum", "Options"), ("EnumSchema", "Options"), ["opts"]),
+  (("Enum", "Prefix"), ("EnumSchema", "NamePrefix"), ["sch.Prefix"]),
+  (("Enum", "Info"), ("EnumSchema", "InfoFields"), ["sch.Info"]),
+  (("Object", "Description"), ("rootSchema", "description"), ["sch.Description"]),
+  (("Object", "Name"), ("rootSchema", "name"), ["sch.Name"]),
+  (("Object", "Properties"), ("ObjectSchema", "Properties"), ["make([]*ObjectProperty,len(sch.Properties))"]),
+  (("Object", "Entity"), ("ObjectSchema", "Entity"), ["sch.Entity"]),
+  (("Object", "AnyMember"), ("ObjectSchema", "AnyMember"), ["sch.AnyMember"]),
+  (("Oneof", "Description"), ("rootSchema", "description"), ["sch.Description"]),
+  (("Oneof", "Name"), ("rootSchema", "name"), ["sch.Name"]),
+  (("Oneof", "Properties"), ("OneofSchema", "Properties"), ["make([]*ObjectProperty,len(sch.Properties))"]),
+  (("ObjectProperty", "Schema"), ("ObjectProperty", "Schema"), ["propSchema"]),
+  (("ObjectProperty", "Name"), ("ObjectProperty", "JSONName"), ["prop.Name"]),
+  (("ObjectProperty", "Required"), ("ObjectProperty", "Required"), ["prop.Required"]),
+  (("ObjectProperty", "ExplicitlyOptional"), ("ObjectProperty", "ExplicitlyOptional"), ["prop.ExplicitlyOptional"]),
+  (("ObjectProperty", "Description"), ("ObjectProperty", "Description"), ["prop.Description"]),
+  (("ObjectProperty", "ProtoField"), ("ObjectProperty", "ProtoField"), ["protoField"]),
+  (("AnyField", "OnlyDefined"), ("AnyField", "OnlyDefined"), ["st.Any.OnlyDefined"]),
+  (("AnyField", "Types"), ("AnyField", "Types"), ["stringSliceConvert(st.Any.Types)"]),
+  (("AnyField", "ListRules"), ("AnyField", "ListRules"), ["st.Any.ListRules"]),
+  (("EnumField", "Schema"), ("EnumField", "Ref"), ["ref", "item.AsRef()"]),
+  (("EnumField", "Rules"), ("EnumField", "Rules"), ["st.Enum.Rules"]),
+  (("EnumField", "ListRules"), ("EnumField", "ListRules"), ["st.Enum.ListRules"]),
+  (("EnumField", "Ext"), ("EnumField", "Ext"), ["st.Enum.Ext"]),
+  (("ObjectField", "Schema"), ("ObjectField", "Ref"), ["ref", "item.AsRef()"]),
+  (("ObjectField", "Flatten"), ("ObjectField", "Flatten"), ["st.Object.Flatten"]),
+  (("ObjectField", "Rules"), ("ObjectField", "Rules"), ["st.Object.Rules"]),
+  (("ObjectField", "Ext"), ("ObjectField", "Ext"), ["st.Object.Ext"]),
+  (("OneofField", "Schema"), ("OneofField", "Ref"), ["ref", "item.AsRef()"]),
+  (("OneofField", "Rules"), ("OneofField", "Rules"), ["st.Oneof.Rules"]),
+  (("OneofField", "ListRules"), ("OneofField", "ListRules"), ["st.Oneof.ListRules"]),
+  (("OneofField", "Ext"), ("OneofField", "Ext"), ["st.Oneof.Ext"]),
+  (("MapField", "ItemSchema"), ("MapField", "Schema"), []),
+  (("MapField", "Rules"), ("MapField", "Rules"), ["st.Map.Rules"]),
+  (("MapField", "Ext"), ("MapField", "Ext"), ["st.Map.Ext"]),
+  (("ArrayField", "Items"), ("ArrayField", "Schema"), []),
+  (("ArrayField", "Rules"), ("ArrayField", "Rules"), ["st.Array.Rules"]),
+  (("ArrayField", "Ext"), ("ArrayField", "Ext"), ["st.Array.Ext"]),
+  (("Ref", "Package"), ("RefSchema", "Package"), []),
+  (("Ref", "Schema"), ("RefSchema", "Schema"), []) ]
+
+/-- exported constants no importer needs (`MapField.key_schema` is always `string`) -/
+def constants : List (String × String) := [("MapField", "KeySchema")]
+
+/-- reads that must appear in an importer function for the fields filled in outside a literal -/
+def laterReads : List (String × String) := [
+  ("Package.schemaFromDesc", "st.Array.Items"), ("Package.schemaFromDesc", "st.Map.ItemSchema"),
+  ("Package.schemaFromDesc", "field.Schema"),
+  ("Package.schemaFromDesc", "inner.Ref.Package"), ("Package.schemaFromDesc", "inner.Ref.Schema"),
+  ("Package.enumSchemaFromDesc", "sch.Options"),
+  ("Package.objectSchemaFromDesc", "sch.Properties"), ("Package.objectSchemaFromDesc", "object.Properties"),
+  ("Package.oneofSchemaFromDesc", "sch.Properties"), ("Package.oneofSchemaFromDesc", "oneof.Properties"),
+  ("Package.objectPropertyFromDesc", "prop.Schema"), ("Package.objectPropertyFromDesc", "prop.ProtoField") ]
+
+def everyExportedFieldIsPaired : Bool :=
+  exportLits.all fun (_, typ, keys) =>
+    wrappers.contains typ ||
+    keys.all fun (k, _) => constants.contains (typ, k) || pairing.any fun (d, _, _) => d == (typ, k)
+
+def everyImporterLiteralCopiesThePairedField : Bool :=
+  pairing.all fun (_, (st, sf), texts) =>
+    texts.isEmpty ||
+    importLits.all fun (_, typ, keys) =>
+      typ != st || keys.any fun (k, v) => k == sf && texts.contains v
+
+def everyPairedStructIsBuilt : Bool :=
+  pairing.all fun (_, (st, _), texts) => texts.isEmpty || importLits.any fun (_, typ, _) => typ == st
+
+def laterReadsPresent : Bool :=
+  laterReads.all fun (fn, e) => importReads.any fun (f, rs) => f == fn && rs.contains e
+
+/-- the model's export writes exactly these descriptor fields; a new one needs a reader -/
+theorem C15_src_exported_fields_paired : everyExportedFieldIsPaired = true := by decide
+/-- every importer literal (every arm) copies the paired descriptor field -/
+theorem C15_src_importers_copy : everyImporterLiteralCopiesThePairedField = true := by decide
+theorem C15_src_importers_exist : everyPairedStructIsBuilt = true := by decide
+theorem C15_src_later_reads : laterReadsPresent = true := by decide
+
+/-! **E6-schema — type-switch coverage.** The importer's switches cover every member of the oneofs
+they switch over (an uncovered member would fall into `default` = error, breaking the fixpoint),
+and `assertRefsLink` looks into every field schema that can hold a reference. -/
+
+def casesOf (fn subject : String) : List (List String) :=
+  typeSwitches.filterMap fun (f, s, cs) => if f == fn && s == subject then some cs else none
+
+def membersOf (iface : String) : List String :=
+  (oneofMembers.find? fun (i, _) => i == iface).map (·.2) |>.getD ["<unknown oneof>"]
+
+def covers (fn subject iface : String) : Bool :=
+  match casesOf fn subject with
+  | [cs] => (membersOf iface).all fun m => cs.contains m
+  | _ => false
+
+theorem C15_src_switch_field : covers "Package.schemaFromDesc" "schema.Type" "isField_Type" = true := by
+  decide
+theorem C15_src_switch_root : covers "Package.buildRoot" "schema.Type" "isRootSchema_Type" = true := by
+  decide
+theorem C15_src_switch_inner :
+    covers "Package.schemaFromDesc" "st.Object.Schema" "isObjectField_Schema" = true ∧
+    covers "Package.schemaFromDesc" "st.Oneof.Schema" "isOneofField_Schema" = true ∧
+    covers "Package.schemaFromDesc" "st.Enum.Schema" "isEnumField_Schema" = true := by decide
+
+/-- the model's `SField` has one constructor per `FieldSchema` implementation, and the walk of
+`assertRefsLink` has a case for each one that holds a reference or a nested field -/
+theorem C15_src_field_impls :
+    fieldSchemaImpls = ["AnyField", "ArrayField", "EnumField", "MapField", "ObjectField",
+      "OneofField", "ScalarSchema"] ∧
+    casesOf "Package.assertRefsLink" "root" =
+      [["ObjectSchema", "OneofSchema", "EnumSchema", "default"],
+       ["ObjectField", "OneofField", "EnumField", "MapField", "ArrayField"]] := by decide
+
+end Src
 
 end J5V.Props.C15
